@@ -1,8 +1,32 @@
 """Per-property configuration: Lean module, harness streams per tier, comparators, notes."""
 from . import cmp_reg
+from . import cmp_pres
 
 # stream spec: (stream name, {tier: [variants]})
 PROPS = {
+    "C01": {
+        "claimed": False,
+        "title": "Honest presentations verify",
+        "streams": [("pres", {"quick": ["ossl-rel", "rust-chk"], "thorough": ["ossl-rel", "ossl-chk", "rust-rel", "rust-chk"]}),
+                    ("predgrid", {"quick": ["ossl-chk"], "thorough": ["ossl-rel", "ossl-chk"]})],
+        "ops": {"verify", "pres_refused", "pred"},
+        "rule": "honest presentation scenarios (1-3 credentials from the fixture credential definitions, values from {0,+-1,small,i32 extremes,256-bit,>256-bit,negative}, random revealed subsets, 0-6 predicates with thresholds at/around the value, 0 and +-2^31, common link secret) plus the predicate boundary grid; non-trivial = proof built and verified; distinct = distinct case input",
+    },
+    "C02": {
+        "claimed": False,
+        "title": "Verifier accepts only proofs of possession of a valid credential",
+        "streams": [("tamper", {"quick": ["ossl-rel"], "thorough": ["ossl-rel", "rust-rel"]})],
+        "ops": {"verify"},
+        "rule": "every single-field alteration (+1, -1, 0, swap, remove, duplicate) of honest proofs incl. c_list, c_hash, nonce, sub-proof order; non-trivial = altered proof evaluated by both verifiers; distinct = distinct altered document",
+    },
+    "C03": {
+        "claimed": False,
+        "title": "Predicate proofs are sound and complete over the 32-bit range",
+        "streams": [("predgrid", {"quick": ["ossl-rel", "ossl-chk"], "thorough": ["ossl-rel", "ossl-chk", "rust-rel"]}),
+                    ("tamper", {"quick": ["ossl-rel"], "thorough": ["ossl-rel"]})],
+        "ops": {"pred", "verify"},
+        "rule": "boundary grid of (value, threshold, type) through the real prover; alterations of predicate proofs; non-trivial = decision build/refuse reached; distinct = distinct triple / altered document",
+    },
     "C08": {
         "title": "Accumulator equals the set of valid indices over every registry history",
         "streams": [("reg", {"quick": ["ossl-rel", "ossl-chk"], "thorough": ["ossl-rel", "ossl-chk", "rust-rel"]})],
@@ -39,3 +63,41 @@ PROPS = {
 
 COMPARATORS = {}
 COMPARATORS.update(cmp_reg.COMPARATORS)
+COMPARATORS.update(cmp_pres.COMPARATORS)
+
+# ---- big-number layer (C17, C18): comparators in cmp_bn.py, findings in known_findings.bn.json
+from . import cmp_bn
+COMPARATORS.update(cmp_bn.COMPARATORS)
+PROPS["C17"] = {
+    "title": "BigNumber operations agree with integer arithmetic",
+    "streams": [("bn", {"quick": ["ossl-rel", "rust-rel"], "thorough": ["ossl-rel", "rust-rel"]}),
+                ("bn_random", {"quick": ["ossl-rel", "rust-rel", "ossl-chk"], "thorough": ["ossl-rel", "rust-rel", "ossl-chk", "rust-chk"]})],
+    "ops": {"bn_op", "bn_random"},
+    "post_compare": cmp_bn.post_compare,
+    "level_text": "Lean 4 theorems for ALL integers (no size bound) about an executable model with three variants of every BigNumber operation (Spec = integer arithmetic, Rust = src/bn/rust.rs statement by statement, Ossl = src/bn/openssl.rs with each wrapped OpenSSL call stated as observed): per operation Rust.op = Spec.op and Ossl.op = Spec.op, errors included, on the stated domain. Proved in full: add sub mul sqr div cmp eq gcd word-ops lshift1 num_bits set_negative from_bytes; modulus sign handling (truncating % + fix-up = non-negative residue mod |n| for every sign, Err iff n = 0), mod_mul, mod_sub; Rust.inverse (own extended Euclid): loop invariant r = a*t (mod n) plus determinant/sign/bound invariants, termination within fuel |a|+1 (the model's panic branch is unreachable), result in [0,|n|) with a*t = 1, Err iff gcd != 1 - for operand >= 0 and modulus != -1; uniqueness of the inverse and correctness of Spec.inverse itself; mod_div; mod_exp for exponent >= 0 (every base, every non-zero modulus of either sign; square-and-multiply proved equal to a^e mod n) and for negative exponents as the power of the inverse; exp special cases against a^k for 0 <= k < 2^64 except 0^0; right shifts = floor division; is_bit_set/set_bit/bitwise_or_big_int (loop over bit positions = Nat lor) on non-negative values for both back-ends; bytes and text: to_bytes/from_bytes round trip, every numeral of the strict grammar -?[0-9]+ / -?[0-9a-fA-F]+ read with the same value by both parsers, print-then-parse identity in decimal and hexadecimal on both back-ends (incl. OpenSSL's padded hex); generates_semiprime_subgroup = the three conditions; prime_in_range_bounds: for all random bytes and all (size, range) passing the asserts with range % 8 != 0, both overflow modes, the candidate lies in [2^size, 2^size+2^range) and is odd, instantiated with the regenerated constants (596,119). Where the full statement is false the file holds X_partial plus a machine-checked witness X_finding (inverse(-3,5)=2, mod_exp zero modulus panic, exp(0,0)=0, OpenSSL increment(-5)=6, '5x', '+5', from_u32 truncation, range % 8 = 0 ...). Tie to the code: the harness calls the real BigNumber API of both builds on edge values crossed per arity, random operands of 1..4096 bits of both signs and malformed text (quick ~25 000 calls per build), and every result is compared (a) with the model of that back-end (correspondence) and (b) with Spec; Spec as evaluated by Lean is additionally compared with Python integers on every case.",
+    "level_note": "Observed, not proved: num-bigint, num-integer, OpenSSL and glass_pumpkin primitives are stated in the model as what they were seen to do on the installed versions (num-bigint 0.4.6, OpenSSL 3.5, glass_pumpkin 1.7.0) and are tied only by the correspondence stream. rand, rand_range, is_prime, is_safe_prime, generate_prime, generate_safe_prime, generate_prime_in_range and random_qr are not modelled as functions: their contracts (range, both halves and the top bit of the range reached, all values of tiny ranges drawn, exact bit length, primality/safe-primality of outputs and verdicts against a 16-base Miller-Rabin implemented in the Lean driver - a test, not a proof - Euler criterion for random_qr with known factors, fixed point of the modelled buffer construction) are checked statistically over a few hundred draws in the quick tier. Specification choices: inverse modulo 0, +1, -1 is 'undefined' (both back-ends reject 1 on purpose); printing is compared by denotation (the exact text is C18's matter); bit operations and shifts are specified on non-negative values and indices only, exp on exponents < 2^64 (differences outside are counted, not failed). Deviations confirmed on the real code are listed in known_findings.bn.json and reported as KNOWN-FINDING; the model mirrors the code as it is.",
+    "rule": "one BigNumber API call per case; edge values crossed per arity, random operands of 1..4096 bits of both signs, malformed text; non-trivial = the call returned Ok; distinct = distinct (back-end, operation, operands)",
+}
+PROPS["C18"] = {
+    "title": "The two big-number backends are interchangeable",
+    "streams": [("bn", {"quick": ["ossl-rel", "rust-rel"], "thorough": ["ossl-rel", "rust-rel"]})],
+    "ops": {"bn_op"},
+    "post_compare": cmp_bn.post_compare,
+    "level_text": "Lean 4 theorems for ALL integers: backend_equiv_<op> : Rust.op = Ossl.op as corollaries of the two C17 refinement theorems - for all inputs for add sub mul sqr div gcd cmp eq is_negative num_bits lshift1 word-ops modulus (all signs) mod_mul mod_sub set_negative from_bytes to_dec, and on the C17 domain for to_bytes (a != 0), inverse/mod_div (operand >= 0, modulus != -1), mod_exp (non-zero modulus; negative exponents with base >= 0 and |n| >= 2), exp, increment/decrement (a >= 0), from_u32 (< 2^32), shifts and bit operations and bitwise_or_big_int (non-negative), generates_semiprime_subgroup; decimal text and bytes written by one back-end are read as the same number by the other (decimal_text_exchange, bytes_exchange); numerals of the strict grammar are read identically. For every operation where the back-ends differ a witness theorem with the concrete input: zero_bytes_differ ([0] vs []), hash_of_zero_differs (any hashed list containing 0 gets different byte input), to_hex_differs, dec_plus_sign_differs, dec_trailing_garbage_differs, dec_underscore_differs, dec_nul_differs, inverse_negative_differs, increment_negative_differs, exp_zero_zero_differs, mod_exp_zero_modulus_differs, from_u32_differs, bits_negative_differ ... Tie to the code: the same generated operation list (same seed; the generator is a function of the seed only) is executed by the OpenSSL build and by the pure-Rust build; each result is compared with the model of its back-end and the two implementations' results are compared with each other line by line.",
+    "level_note": 'The OpenSSL and num-bigint primitives are observed, not verified (see C17). Differences outside the C17 domain (bit operations on negative values, exponents >= 2^64) are counted and reported in the evidence but are not failures. Random generators, primality tests and prime generation are compared only through their C17 contracts (glass_pumpkin refuses sizes below 128 bits and its is_prime accepts Carmichael numbers; OpenSSL generate_safe_prime returns size+1 bits). Every in-domain difference found on the real code is a known finding in known_findings.bn.json.',
+    "rule": "the same generated operation list (same seed, back-end independent generator) executed by the OpenSSL build and the pure-Rust build and compared line by line; non-trivial = the call returned Ok; distinct = distinct (operation, operands)",
+}
+
+
+# ---- C19 (group-order scalars, point/pairing wrappers, four_squares)
+from . import cmp_c19
+COMPARATORS.update(cmp_c19.COMPARATORS)
+PROPS["C19"] = {
+    "title": "Group-scalar arithmetic, pairing wrappers and four-square helper are exact",
+    "streams": [("c19", {"quick": ["ossl-rel", "ossl-chk"], "thorough": ["ossl-rel", "ossl-chk", "rust-rel"]})],
+    "ops": {"sc_op", "pair_case", "four_squares"},
+    "level_text": "Theorems for all inputs about the executable models CL.Sc (GroupOrderElement wrappers on the raw BIG value) and CL.FourSq (four_squares with its three labelled-break loops, the Legendre skip, the stale-roots exit and explicit 64-bit usize arithmetic in both profiles). Proved: the group order r is prime (Pratt certificate, kernel-evaluated); add_mod, sub_mod, mul_mod, mod_neg, pow_mod are the operations of ZMod r and return reduced values (pow_mod = a^e mod r by square-and-multiply); inverse(a) is the field inverse for every a not divisible by r (Fermat); from_bytes of at most 32 bytes is the big-endian integer mod r and longer input is Err; to_bytes/from_bytes round trip; from_string on 1..71 hex digits is the value mod r, empty/non-hex input panics; bignum_to_group_element_reduce(n) = n mod r for every integer n; four_squares returns for EVERY delta >= 0 (no bound) four naturals whose squares sum to delta (Lagrange's theorem from Mathlib plus the easy direction of Legendre's three-square theorem, proved here, for the skip), refuses every delta < 0, leaves through a break for delta >= 1, and for delta < 2^64 (in particular < 2^33) no pow/+ overflows and no - underflows in either profile. Two defects are stated as witness theorems with partial theorems beside them: mod_neg(0) = r (unreduced) and inverse(0) does not terminate. NOT proved: the group laws of the amcl points and the bilinearity of its pairing (a dependency): these are observed on the real wrappers by 60 named oracles per case (bilinearity, pair2, inverse, pow, add/sub/neg/mul incl. the identity), with the scalars a+b, ab, a-b, -a, r-1 compared with the model; their exponent-form counterparts are proved as ring identities of the scalar model.",
+    "level_note": "Tie between model and code: every wrapper and four_squares are run in-process on edge and random inputs and compared value by value with the compiled Lean model (four_squares: exact roots, the model mirrors the search order), and independently with Python integers mod r. inverse is modelled by its function a^(r-2) (amcl's binary invmodp is a dependency); the f64 step largest_square_less_than is modelled by the integer square root: assumption = IEEE-754 sqrt correctly rounded and monotone; pinned by running four_squares on k^2 and k^2-1 for every k <= 65535 (all breakpoints below 2^32). from_string on 72+ hex digits is outside the modelled domain (amcl BIG overflow into the sign bit: wrong residue, unreduced value or non-termination were observed; reported to C16/C20). usize is modelled as 64 bits. Deltas whose search needs more than a budget of loop iterations are run on the real code only (counts in the class histogram), because the model is ~40x slower. Trusted: Lean kernel, Mathlib (Nat.sum_four_squares, lucas_primality, ZMod), the correspondence harness, amcl/OpenSSL/num-bigint as observed dependencies.",
+    "rule": "scalars: all binary operations on a 17x17 grid of edge operands (0, 1, 2, 3, 2^32-1, 2^64, 2^127, r-1, r-2, r-3, (r+-1)/2, 2^253, the unreduced r returned by mod_neg(0), random) plus random pairs; unary operations on the same operands; from_bytes on every length 0..40 with zero/ff/random fillings, r+-k, multiples of r, random values >= r; from_string on malformed, 1..71-digit and over-long strings; bignum_reduce on signed integers up to 3000 bits. points/pairing: 25 edge pairs (a,b) from {0,1,2,r-1,(r+1)/2}^2 and random pairs, random base points incl. the identity in G1 or G2. four_squares: every delta 0..65536 (quick) / 0..2^22 (thorough), 10 negative values, 20 000 (quick) / 200 000 (thorough) stratified samples up to 2^32-1 in 8 strata (4^a(8b+7), k^2-1, k^2, k^2+1, powers of two and neighbours, uniform, log-uniform, top of range), a fixed list of hard values (2*4^k, 7*4^k, 15*4^k, ..., 2^31, 2^32-1), and k^2-1, k^2 for every k <= 65535; one four_squares case line carries up to 8192 deltas (numbers of deltas are in streams[].classes.count). non-trivial = the call returned Ok (four_squares: the line contains at least one decomposition); distinct = distinct inputs.",
+    "assumptions": ["IEEE-754 binary64 sqrt is correctly rounded and monotone, and u64 -> f64 conversion is exact below 2^53 (largest_square_less_than = integer square root on the range of predicate deltas); pinned by the breakpoint stream", "usize is 64 bits wide"],
+}
